@@ -216,6 +216,18 @@ func (mT *provider) Shutdown() error {
 		for _, pkt := range res {
 			// Discard retained expired and QoS0 messages
 			if expireAt, _, expired := pkt.Expired(); !expired && pkt.QoS() != mqttp.QoS0 {
+				// startup decodes what is stored here as MQTT 5.0, whatever the publisher spoke
+				if pkt.Version() != mqttp.ProtocolV50 {
+					if v5, err := pkt.Clone(mqttp.ProtocolV50); err == nil {
+						v5.PropertiesDiscard()
+						v5.SetVersion(mqttp.ProtocolV50)
+						if id, e := pkt.ID(); e == nil {
+							v5.SetPacketID(id)
+						}
+						pkt = v5
+					}
+				}
+
 				if buf, err := mqttp.Encode(pkt); err != nil {
 					mT.log.Error("Couldn't encode retained message", zap.Error(err))
 				} else {
